@@ -164,3 +164,18 @@ func VerifAnyRank(v interface{}) int { return 0 }
 
 // VerifIterKey is the rank of the key of item i of the sequence an iterator walks.
 func VerifIterKey(it Iterator[any, any], i int) int { return 0 }
+
+// ---- abstract view of b6.Features iterators (C16, C03) ------------------------------
+// A Features iterator walks a fixed sequence of features; the int ghost field
+// "fpos" is the index of the current one. The three functions below give the ID of
+// item i (uninterpreted; bodies unused).
+func VerifFeatType(it Features, i int) FeatureType { return 0 }
+func VerifFeatNS(it Features, i int) Namespace     { return "" }
+func VerifFeatValue(it Features, i int) uint64     { return 0 }
+
+func VerifFeatID(it Features, i int) FeatureID {
+	return FeatureID{Type: VerifFeatType(it, i), Namespace: VerifFeatNS(it, i), Value: VerifFeatValue(it, i)}
+}
+
+// VerifFeatRef is the identity of the feature object item i of a Features iterator yields.
+func VerifFeatRef(it Features, i int) int { return 0 }
